@@ -879,6 +879,15 @@ where
         }
         let stack = self.stack;
         stack.frames.pop().expect("Expected frame");
+        #[cfg(gluon_verif)]
+        if crate::verif::events_on() {
+            crate::verif::emit(format_args!(
+                "\"ev\":\"exit\",\"frames\":{},\"slen\":{},\"peak\":{}",
+                stack.frames.len(),
+                stack.len(),
+                crate::verif::take_peak(stack.len() as usize)
+            ));
+        }
         match stack.frames.last() {
             Some(frame) => {
                 let stack = StackFrame {
@@ -935,6 +944,14 @@ where
         }
         // Before entering a function check that the stack cannot exceed `max_stack_size`
         if stack.len() + frame.state.max_stack_size() > stack.max_stack_size {
+            #[cfg(gluon_verif)]
+            crate::verif::emit(format_args!(
+                "\"ev\":\"overflow\",\"frames\":{},\"slen\":{},\"maxss\":{},\"limit\":{}",
+                stack.frames.len(),
+                stack.len(),
+                frame.state.max_stack_size(),
+                stack.max_stack_size
+            ));
             return Err(Error::StackOverflow(stack.max_stack_size));
         }
 
@@ -944,6 +961,26 @@ where
             stack.frames.push(frame.to_state().clone_unrooted());
         }
         debug!("----> Store {} {:?}", stack.frames.len(), frame.to_state());
+        #[cfg(gluon_verif)]
+        if crate::verif::events_on() {
+            let kind = match *frame.state.to_state() {
+                State::Unknown => "top",
+                State::Closure(_) => "closure",
+                State::Extern(_) => "extern",
+            };
+            crate::verif::emit(format_args!(
+                "\"ev\":\"enter\",\"kind\":\"{}\",\"args\":{},\"excess\":{},\"offset\":{},\"frames\":{},\"slen\":{},\"maxss\":{},\"limit\":{},\"peak\":{}",
+                kind,
+                args,
+                excess,
+                offset,
+                stack.frames.len(),
+                stack.len(),
+                frame.state.max_stack_size(),
+                if stack.max_stack_size == VmIndex::MAX { -1 } else { stack.max_stack_size as i64 },
+                crate::verif::take_peak(stack.len() as usize)
+            ));
+        }
         Ok(frame)
     }
 }
